@@ -81,7 +81,12 @@ type Scenario struct {
 	PublicKey   *rsa.PublicKey // overrides the key given to the client (default: the server's)
 	Handler     bool           // register a custom server-request handler that accepts everything
 	NoWarnings  bool           // the application did not set a Warnings channel (it is optional)
-	Setup       func(w *World)
+	// Ticks: how many times the keep-alive ticker of the client fires within the horizon; when (between which
+	// steps of the other threads) is a choice of the explorer. The server answers a ping with a plain pong, which
+	// the client ignores, so the pinging goroutine then waits for a reply forever; that is outside the twenty
+	// statements and is tolerated (World.Stalled), everything else is judged as usual.
+	Ticks int
+	Setup func(w *World)
 	// AfterConnect runs in the main thread right after CreateConnection returned.
 	AfterConnect        func(w *World)
 	SaltAfterExchange   func(w *World)
@@ -109,6 +114,7 @@ type World struct {
 	Trace                     []string
 	Extra                     map[string]any
 	Auth                      *authsrv.Server
+	TicksFired                int
 }
 
 // Expected is what the statement promises for a call.
@@ -306,6 +312,14 @@ func Run(sc *Scenario, prefix []int, tracing bool) *World {
 				}
 			})
 		}
+		if sc.Ticks > 0 {
+			s.Go("timer", func() {
+				for i := 0; i < sc.Ticks; i++ {
+					s.WaitUntil("tick", s.TickersArmed)
+					w.TicksFired += s.FireTickers()
+				}
+			})
+		}
 	})
 	w.Outcome = s.Run()
 	w.Fatal = s.FatalEvent()
@@ -338,6 +352,9 @@ func (w *World) Stalled() []string {
 		case sched.OpRecv:
 			if b.ElemType == "struct {}" || b.ElemType == "time.Time" {
 				continue
+			}
+			if w.Sc.Ticks > 0 && strings.Contains(b.Thread, "startPinging") {
+				continue // the pinger waits for the reply to its ping (see Scenario.Ticks)
 			}
 		}
 		out = append(out, b.Thread+":"+b.Desc)
